@@ -178,6 +178,17 @@ def _decide(es, prim_eqs, prim_vars, inverter, A_full, b_full, cols_p, mon, deta
         mon.measure("full_residual_of_expanded_solution",
                     float(np.max(np.abs(res))) / max(1.0, float(np.max(np.abs(b_full)))))
     mon.count("splits_checked")
+    # the same split assembled again on the same system (what every Newton iteration after
+    # the first does; the default inverter then works from its cached permutation)
+    for rep in (2, 3):
+        S2, rhs2 = es.assemble_schur_complement_system(prim_eqs, prim_vars, inverter=inverter)
+        S2 = S2.toarray() if sps.issparse(S2) else np.asarray(S2)
+        x_p2 = np.linalg.solve(S2, np.asarray(rhs2).ravel())
+        x2 = es.expand_schur_complement_solution(x_p2)
+        mon.close("repeated_assembly_solution_vs_full", x2, x_full, TOL,
+                  "repeated-assembly:expanded-solution-differs-from-full-solution", scale=sc,
+                  detail=dict(detail, assembly=rep))
+        mon.count("repeated_assemblies_checked")
 
 
 def _structured_J(rng, n, rows_p, rows_s, cols_p, cols_s, secondary):
